@@ -67,6 +67,11 @@ static void gmul(uint8_t x[16], const uint8_t y[16]) {
 static void ghash_blocks(uint8_t y[16], const uint8_t h[16], const uint8_t *d, size_t n) {
 	for (size_t off = 0; off < n; off += 16) { size_t m = n - off < 16 ? n - off : 16; uint8_t t[16] = {0}; memcpy(t, d + off, m); xor16(y, y, t, 16); gmul(y, h); }
 }
+/* a 16-byte IV whose GCM pre-counter block J0 = GHASH_H(IV || 0^64 || [128]_64) equals the wanted block: IV = ((J0 * H^-1) xor L) * H^-1 */
+void mr_gcm_iv_for_j0(const mr_blk *b, const uint8_t j0[16], uint8_t iv[16]) {
+	uint8_t z[16] = {0}, h[16]; mr_E(b, z, h); uint8_t inv[16] = { 0x80 }, sq[16], t[16]; memcpy(sq, h, 16); /* H^(2^128-2) = prod_{i=1..127} H^(2^i) */
+	for (int i = 1; i < 128; i++) { memcpy(t, sq, 16); gmul(sq, t); gmul(inv, sq); }
+	uint8_t l[16] = {0}; l[15] = 128; memcpy(iv, j0, 16); gmul(iv, inv); xor16(iv, iv, l, 16); gmul(iv, inv); }
 void mr_ghash(const uint8_t h[16], const uint8_t *a, size_t alen, const uint8_t *c, size_t clen, uint8_t out[16]) {
 	uint8_t y[16] = {0}, l[16]; ghash_blocks(y, h, a, alen); ghash_blocks(y, h, c, clen);
 	uint64_t ab = (uint64_t)alen * 8, cb = (uint64_t)clen * 8; for (int i = 0; i < 8; i++) { l[i] = (uint8_t)(ab >> (56 - 8 * i)); l[8 + i] = (uint8_t)(cb >> (56 - 8 * i)); }
